@@ -879,7 +879,7 @@ fn run(args: &[String]) -> i32 {
         total_runs: cases,
         block: if tier == "thorough" { 500 } else { 25 },
         workers,
-        max_wall_s: if tier == "thorough" { 2400.0 } else { 150.0 },
+        max_wall_s: simcore::env_u64("VERIF_MAX_WALL_S", if tier == "thorough" { 2400 } else { 150 }) as f64,
         max_violations: 8,
         env: vec![],
     };
